@@ -821,7 +821,20 @@ class Session:
     def _do_r_read(self, st, lane):
         h = st["h"]
         info = self.handles[h][2]
-        if st.get("all"):
+        if st.get("to_end"):
+            # Read::read_to_end / AsyncReadExt::read_to_end into a vector that already holds bytes
+            req = {"op": "r_read_to_end"}
+            pf = st.get("prefill")
+            if pf == "same":
+                snap0 = info["snap"] or b""
+                orig = self.u.blobs.get(st.get("orig", ""), None)
+                data = orig.bytes() if orig is not None else snap0
+                req["prefill"] = {"hex": data.hex()} if len(data) <= 65536 else {"gen": orig.spec["gen"]}
+            elif pf:
+                req["prefill"] = {"hex": pf}
+            resp = self._hcall(h, req)
+            n_spec = 1 << 30
+        elif st.get("all"):
             resp = self._hcall(h, {"op": "r_read_all", "n": st["n"]})
             n_spec = 1 << 30
         else:
